@@ -203,6 +203,13 @@ var connSeq int
 
 // Dial opens a client connection served by the real tcpServer.Handle and sends the magic.
 func (w *World) Dial(name string) *WConn {
+	wc := w.DialRaw(name)
+	wc.C.Write([]byte("  V2"))
+	return wc
+}
+
+// DialRaw opens a client connection without sending the protocol magic.
+func (w *World) DialRaw(name string) *WConn {
 	connSeq++
 	s, c := vrt.Pipe(fmt.Sprintf("%d", 10000+len(w.Conns)), name)
 	n := w.N
@@ -213,7 +220,6 @@ func (w *World) Dial(name string) *WConn {
 		wc.marks = append(wc.marks, wmark{wc.wtotal, vrt.Now()})
 	}
 	w.Conns = append(w.Conns, wc)
-	c.Write([]byte("  V2"))
 	return wc
 }
 
